@@ -4,6 +4,11 @@ cache directory, then evaluate it.  Block points S (started, nothing imported),
 P (library built, not yet dlopen'ed - DllModel loads lazily).
 
     python -m vp.c18_worker <plugin.py> <out.json>
+
+With VERIF_FORK=n the process imports sasmodels (including kerneldll), then
+forks n children that each do the work under the ids <wid>.0 .. <wid>.<n-1>
+(a parent that builds models in a fork-based worker pool); child k writes
+<out>.k and the parent records each child's wait status in <ctl>/exit_<id>.
 """
 import json
 import os
@@ -24,13 +29,8 @@ def block(tag):
             os._exit(98)
 
 
-def main():
-    plugin, outpath = sys.argv[1], sys.argv[2]
+def work(plugin, outpath):
     out = {"wid": os.environ["VERIF_WID"]}
-    block("S")
-    from vp import env
-    env.prepare(os.environ["SAS_DLL_PATH"])
-    env.import_sasmodels()
     import numpy as np
     from sasmodels import core
     from sasmodels.direct_model import call_kernel
@@ -49,7 +49,39 @@ def main():
     with open(outpath, "w") as fh:
         json.dump(out, fh)
     sys.stdout.flush()
-    os._exit(0 if "result" in out else 3)
+    # tells the harness this worker is through (a forked child has no process handle of its own there)
+    open(os.path.join(os.environ["VERIF_CTL"], "at_%s_X" % os.environ["VERIF_WID"]), "w").close()
+    return 0 if "result" in out else 3
+
+
+def main():
+    plugin, outpath = sys.argv[1], sys.argv[2]
+    block("S")
+    from vp import env
+    env.prepare(os.environ["SAS_DLL_PATH"])
+    env.import_sasmodels()
+    nfork = int(os.environ.get("VERIF_FORK", "0"))
+    if not nfork:
+        os._exit(work(plugin, outpath))
+    import sasmodels.kerneldll        # noqa: F401  (module state created before the fork is shared by the children)
+    wid, ctl = os.environ["VERIF_WID"], os.environ["VERIF_CTL"]
+    pids = {}
+    for k in range(nfork):
+        pid = os.fork()
+        if pid == 0:
+            os.environ["VERIF_WID"] = "%s.%d" % (wid, k)
+            block("S")
+            os._exit(work(plugin, "%s.%d" % (outpath, k)))
+        pids[pid] = "%s.%d" % (wid, k)
+    bad = 0
+    for _ in range(nfork):
+        pid, status = os.wait()
+        code = os.WEXITSTATUS(status) if os.WIFEXITED(status) else -os.WTERMSIG(status)
+        with open(os.path.join(ctl, "exit_%s" % pids[pid]), "w") as fh:
+            fh.write(str(code))
+        open(os.path.join(ctl, "at_%s_X" % pids[pid]), "w").close()
+        bad += code != 0
+    os._exit(1 if bad else 0)
 
 
 if __name__ == "__main__":
